@@ -29,6 +29,16 @@ def _const_policy():
     return os.environ.get("VERIF_CONST", _CONST_POLICY.get(os.environ.get("VERIF_PID", ""), "all"))
 
 
+# sequence-valued interpreted functions are enabled per property once its harness copes with them
+_SEQ_ON = {"C01"}
+
+
+def _seq_policy():
+    import os
+    v = os.environ.get("VERIF_SEQ")
+    return (v == "1") if v is not None else os.environ.get("VERIF_PID", "") in _SEQ_ON
+
+
 def assign_consts(rng, funcs, p_const=0.15):
     """Rename some functions to `<name>_none/_zero/_false/_empty` (interpreted constant functions, see terms.py)."""
     policy = _const_policy()
@@ -39,7 +49,10 @@ def assign_consts(rng, funcs, p_const=0.15):
             continue
         if policy == "sinks" and any(p in f["outputs"] for g in funcs for p, _ in g["params"]):
             continue
-        f["name"] += rng.choice(["_none", "_none", "_none", "_zero", "_false", "_empty"])   # None is where short-cuts go wrong most
+        if rng.random() < 0.4 and not f.get("ret") and _seq_policy():
+            f["name"] += rng.choice(["_pair", "_lst", "_nd"])       # sequence-valued results (terms.SEQ_SUFFIX)
+        else:
+            f["name"] += rng.choice(["_none", "_none", "_none", "_zero", "_false", "_empty"])   # None is where short-cuts go wrong most
 
 
 def gen_dag(rng, max_funcs=5, roots=3, p_tuple=0.25, p_default=0.3, p_bound=0.15, p_rename=0.3, p_nullary=0.08, max_params=3):
